@@ -41,6 +41,9 @@ type Request struct {
 	isParsed     bool
 	isNormalized bool
 	request      resolve.Request
+	// variablesRemap belongs to the normalized document: it maps the canonical variable names the
+	// document was rewritten to back to the names the client used (see SetVariablesRemap).
+	variablesRemap map[string]string
 
 	validForSchema map[uint64]ValidationResult
 
@@ -89,6 +92,19 @@ func (r *Request) Print(writer io.Writer) (n int, err error) {
 
 func (r *Request) IsNormalized() bool {
 	return r.isNormalized
+}
+
+// SetVariablesRemap records the table that describes how the variables of the request's document were
+// renamed to canonical names. The renaming is written into the document, so the table has to stay with
+// the request: whoever executes the (already normalized) request again needs it to find the client's
+// variables.
+func (r *Request) SetVariablesRemap(remap map[string]string) {
+	r.variablesRemap = remap
+}
+
+// VariablesRemap returns the table recorded by SetVariablesRemap, nil when the variables were not renamed.
+func (r *Request) VariablesRemap() map[string]string {
+	return r.variablesRemap
 }
 
 func (r *Request) parseQueryOnce() (report operationreport.Report) {
